@@ -141,3 +141,39 @@ contract(F, "OptionalCoercerProvider._provide_coercer_norm_types", name=f"{F}:Op
                                                   "result is data)"),
          },
          scenarios=_optional_closure_scenarios, cover=["returned"])
+
+
+# ---- the element types of compound hints are read off the normalised hint: every hint is either parsed or refused with
+# CannotProvide (C14: "in every other case ... creating the converter fails with ProviderNotFoundError" — any other exception,
+# e.g. an IndexError for the argument-less Tuple[()], is neither).  Index safety is an obligation here, not an assumption.
+def _parse_scenarios(cls_name, meth):
+    def gen(mod):
+        import collections
+        import typing as t
+        from adaptix._internal.type_tools import normalize_type
+        pool = [t.Tuple[()], t.Tuple[int], t.Tuple[int, ...], t.Tuple[int, str], tuple, t.List[int], list, t.Set[str], t.Deque[int],
+                t.Iterable[int], t.Sequence[str], t.Dict[str, int], dict, t.Mapping[str, int], t.DefaultDict[str, int],
+                collections.OrderedDict, int, str, t.Any, t.Optional[int]]
+        out = []
+        for tp in pool:
+            def factory(tp=tp):
+                prov = getattr(mod, cls_name)()
+                return getattr(getattr(mod, cls_name), meth), {"self": prov, "norm": normalize_type(tp)}, {}
+            out.append((repr(tp).replace("typing.", ""), factory))
+        return out
+    return gen
+
+
+for _cls in ("IterableCoercerProvider", "DictCoercerProvider"):
+    for _meth in ("_parse_source", "_parse_destination"):
+        contract(F, f"{_cls}.{_meth}", props=["C14"], params={"self": ("constf", lambda m, _cls=_cls: getattr(m, _cls)()), "norm": "sym"},
+                 # type invariant of a normalised hint (established by TypeNormalizer, checked on the scenario pool and by C15's
+                 # bounded enumeration): every generic origin other than `tuple` carries its complete argument list (bare generics
+                 # receive their implicit parameters); only a tuple may have no arguments at all: Tuple[()]
+                 # (the Dict units are proved for hints with >= 2 arguments; hints with fewer arguments never have a mapping origin and
+                 # are exercised natively on the scenario pool: int, str, List[int], Tuple[()] ...)
+                 requires=["norm.origin is tuple or len(norm.args) >= 1" if _cls == "IterableCoercerProvider" else "len(norm.args) >= 2",
+                           "type(norm.args) is tuple"],
+                 consts={"Mapping": __import__("collections").abc.Mapping, "MutableMapping": __import__("collections").abc.MutableMapping},
+                 post={"parsed-or-refused": "implies(raised, type(exc) is CannotProvide)"}, index_safety=True,
+                 scenarios=_parse_scenarios(_cls, _meth), cover=["returned", "raised"])
